@@ -260,6 +260,22 @@ def marker_rules(facts, rep, w, prefix=None, only=None):
                                     whole = a_[0] == "arg"
                                 if pcs and not whole:
                                     partial.append(", ".join(fmt(p_)[:30] for p_ in argp) or "no argument")
+                        # ... joined onto the write layer's own path — where read_dir looks for the markers of a directory — not onto the
+                        # root of the filesystem that hosts it (`write_layer().root()`): with a write layer that is a sub-directory the
+                        # two places differ, and two overlays on one filesystem would share their markers
+                        off_base = []
+                        for x in walk(norm(ov.inter.inline_ret(t, depth=3, pred=own_))):
+                            if x[0] == "call" and isinstance(x[1], str) and sname(x[1]) == "join" and len(x[2]) == 2:
+                                r_ = norm(x[2][0])
+                                while r_[0] == "call" and isinstance(r_[1], str) and short(r_[1]) in ("Clone::clone", "Deref::deref", "Borrow::borrow", "AsRef::as_ref") and r_[2]:
+                                    r_ = norm(r_[2][0])
+                                if r_[0] == "call" and isinstance(r_[1], str) and sname(r_[1]) in ("root", "parent", "join") and \
+                                        (r_[1].split("::")[0].endswith("VfsPath")):
+                                    off_base.append(fmt(r_)[:40])
+                        n += 1
+                        rep.ob("R10.5", root_.id, "%s in %s: the marker is joined onto the write layer itself" % (nm, opn), not off_base, "" if not off_base else
+                               "the marker path starts from %s instead of the write layer's own path: the listing looks for markers somewhere else"
+                               % off_base[0], s.line)
                         n += 1
                         rep.ob("R10.5", root_.id, "%s in %s: the marker name contains the whole path" % (nm, opn), not partial, "" if not partial else
                                "the marker string is built from %s instead of the path as a whole: different paths can map to one marker, so "
